@@ -449,14 +449,30 @@ func genActions(repo, out string) {
 		}
 	}
 	b.WriteString(fmt.Sprintf("Definition continue_clears_deadline : bool := %v.\n", contClears))
-	// continueGame resets the statistics block of every player
+	// continueGame resets the statistics block of every player: an unconditional statement at the top level of a
+	// loop over all player states
 	resets := false
-	ast.Inspect(cg.Body, func(n ast.Node) bool {
-		if as, ok := n.(*ast.AssignStmt); ok && strings.HasSuffix(src(as.Lhs[0]), ".GameStatistics") && src(as.Rhs[0]) == "NewPlayerGameStatistics()" {
-			resets = true
+	for _, st := range cg.Body.List {
+		var body *ast.BlockStmt
+		switch l := st.(type) {
+		case *ast.RangeStmt:
+			if src(l.X) == "te.table.State.PlayerStates" {
+				body = l.Body
+			}
+		case *ast.ForStmt:
+			if l.Cond != nil && src(l.Cond) == "i < len(te.table.State.PlayerStates)" && l.Init != nil && src(l.Init) == "i := 0" && l.Post != nil && src(l.Post) == "i++" {
+				body = l.Body
+			}
 		}
-		return true
-	})
+		if body == nil {
+			continue
+		}
+		for _, x := range body.List {
+			if as, ok := x.(*ast.AssignStmt); ok && strings.HasSuffix(src(as.Lhs[0]), ".GameStatistics") && src(as.Rhs[0]) == "NewPlayerGameStatistics()" {
+				resets = true
+			}
+		}
+	}
 	b.WriteString(fmt.Sprintf("Definition continue_resets_statistics : bool := %v.\n", resets))
 	// game_statistics.go: which 'had the chance' flags sit behind validateGameStatisticGameState, and what that gate needs
 	gsf := parse(repo, "game_statistics.go")
